@@ -108,6 +108,11 @@ func Harness_C15_history() {
 			if hasVeh {
 				vid = vr.Str(vr.T("feed", f, ".trip", n, ".vehicle"))
 				trip.Vehicle = &gtfs.Vehicle{ID: &gtfs.VehicleID{ID: vid}}
+				if vr.Param("ANON", 0) == 1 && vr.Bool(vr.T("feed", f, ".trip", n, ".vehicle.anonymous")) {
+					// a vehicle the feed does not identify is still a vehicle: the trip is assigned, with an empty vehicle id
+					vid = ""
+					trip.Vehicle = &gtfs.Vehicle{}
+				}
 			}
 			feed.Trips = append(feed.Trips, trip)
 			// reference fold
